@@ -36,6 +36,7 @@ extract       extract_particles: destination extended by len(indices), every
 NOT verified (outside reach): add_property's dtype/shape branches, pickling,
 get/set, append_parray, add_particles (numpy glue).
 """
+import ast
 import z3
 
 from pyvc import sym as S
@@ -62,7 +63,7 @@ TRUSTED = ['z3 quantifier instantiation']
 
 def tasks(tier):
     return ['align', 'remove', 'tagged', 'extend', 'extract', 'props', 'add',
-            'append', 'addprop', 'walkers', 'canary']
+            'append', 'addprop', 'walkers', 'pickle', 'canary']
 
 
 def mod(repo):
@@ -135,6 +136,8 @@ def run_task(task, ctx):
         return task_addprop(ctx, repo, m)
     if task == 'walkers':
         return task_walkers(ctx, repo, m)
+    if task == 'pickle':
+        return task_pickle(ctx, repo, m)
     if task == 'canary':
         a = z3.Array('ca', z3.IntSort(), z3.IntSort())
         i = z3.Int('ci')
@@ -885,16 +888,18 @@ def task_append(ctx, repo, m):
     fn = m.methods('ParticleArray')['append_parray']
     n, k = z3.Int('n'), z3.Int('k')
     obs = []
-    for align in (True, False):
+    for align, upd in ((True, False), (False, False), (True, True),
+                       (False, True)):
         props = {}
         for nm in ('x', 'v'):
             c = carr_obj(nm)
             c.attrs['get_npy_array'] = Native(
                 lambda e, s_, a, k_, nn, nm=nm: _View(nm))
             props[nm] = c
+        own_consts = {'c1': ('own', 'c1'), 'c2': ('own', 'c2')}
         obj = pa_self(props, {'v': 3}, n, dict(
             default_values={'x': z3.Real('dx'), 'v': z3.Real('dv')},
-            constants={}))
+            constants=dict(own_consts)))
         sprops = {}
         for nm in ('x', 'v', 'q'):
             c = carr_obj('src_' + nm)
@@ -906,7 +911,7 @@ def task_append(ctx, repo, m):
         other = SymObject(None, dict(
             properties=sprops, stride={'v': 3, 'q': 2},
             default_values={'x': 0, 'v': 0, 'q': z3.Real('dq')},
-            constants={},
+            constants={'c2': ('src', 'c2'), 'c3': ('src', 'c3')},
             # k particles in all, k_real of them Local
             get_number_of_particles=Native(
                 lambda e, s_, a, k_, nn: z3.Int('k_real') if (
@@ -936,14 +941,26 @@ def task_append(ctx, repo, m):
         ex.spec_env['PyDict_Contains'] = Native(
             lambda e, s_, a, k_, nn: 1 if a[1] in a[0] else 0)
         outs = ex.exec_function(fn, dict(self=obj, parray=other, align=align,
-                                         update_constants=False),
+                                         update_constants=upd),
                                 State(pc=[n >= 0, k >= 0,
                                           z3.Int('k_real') >= 0,
                                           z3.Int('k_real') <= k]))
-        if align:
+        if align and not upd:
             ctx.function(m, fn, 'ParticleArray.append_parray', ex.dropped)
         for i_, o in enumerate(outs):
             tr = o.state.trace
+            # constants: the receiver's own constants are untouched; the
+            # source's other constants arrive only on request
+            cs = o.state.env['self'].attrs['constants']
+            want_c = dict(own_consts)
+            if upd:
+                want_c['c3'] = ('src', 'c3')
+            okc = isinstance(cs, dict) and cs == want_c
+            obs.append(Obligation(
+                'append.constants.%d.%s.%s' % (i_, align, upd), o.pc,
+                z3.Or(z3.BoolVal(bool(okc)), k == 0) if upd else
+                z3.BoolVal(bool(okc)), W,
+                extra=dict(constants=str(cs)[:200])))
             if not tr:
                 obs.append(Obligation('append.noop.%d.%s' % (i_, align),
                                       o.pc, k == 0, W))
@@ -971,12 +988,152 @@ def task_append(ctx, repo, m):
             aligned = ('align',) in tr
             g.append(((k > 0) == z3.BoolVal(aligned)) if align else
                      z3.BoolVal(not aligned))
-            obs.append(Obligation('append.%d.%s' % (i_, align), o.pc,
+            obs.append(Obligation('append.%d.%s.%s' % (i_, align, upd), o.pc,
                                   z3.And(*g), W))
     for o_ in obs:
         o_.extra = dict(o_.extra or {}, backends=['z3'])
     ctx.prove('append.append_parray_copies_whole_rows_to_the_tail', obs,
               use_nf=False, replay=replay_walkers)
+
+
+# ------------------------------------------------------------------- pickle
+def task_pickle(ctx, repo, m):
+    """__reduce__ / __setstate__: the pickled state carries, for EVERY
+    property, its name, C type, data, default value and stride (1 when not
+    strided) and every constant with its data, plus the array's name;
+    __setstate__ starts from empty records and hands every saved property
+    record to add_property and every constant record to add_constant
+    unchanged, then counts the Local particles.  With add_property's
+    contract (task addprop) the unpickled array has the same properties,
+    strides, defaults and constants."""
+    W = m.path
+    obs = []
+    fn = m.methods('ParticleArray')['__reduce__']
+    props = {}
+    for nm in ('x', 'A', 'tag'):
+        c = carr_obj(nm)
+        c.attrs['get_npy_array'] = Native(
+            lambda e, s_, a, k_, nn, nm=nm: ('npy', nm))
+        c.attrs['get_c_type'] = Native(
+            lambda e, s_, a, k_, nn, nm=nm: 'ctype_' + nm)
+        props[nm] = c
+    dfl = {'x': z3.Real('dx'), 'A': z3.Real('dA'), 'tag': z3.Int('dtag')}
+    consts = {'cm': ('const', 'cm'), 'k': ('const', 'k')}
+    obj = pa_self(props, {'A': 2}, z3.Int('n'), dict(
+        default_values=dict(dfl), constants=dict(consts), name='NAME'))
+    ex = executor(repo, m, '__reduce__')
+    try:
+        outs = ex.exec_function(fn, dict(self=obj), State(pc=[]))
+    except VCError as e:
+        ctx.outside('pickle.reduce', str(e))
+        return
+    ctx.function(m, fn, 'ParticleArray.__reduce__', ex.dropped)
+    if len(outs) != 1:
+        obs.append(Obligation('reduce.one_path', [], z3.BoolVal(False), W))
+    state_d = None
+    for o in outs:
+        v = o.value
+        ok = isinstance(v, tuple) and len(v) == 3 and v[1] == () and \
+            isinstance(v[2], dict)
+        why = 'returned %r' % (v,)
+        if ok:
+            d = v[2]
+            state_d = d
+            want_p = {}
+            for nm in props:
+                want_p[nm] = dict(name=nm, type='ctype_' + nm,
+                                  data=('npy', nm), default=dfl[nm],
+                                  stride={'A': 2}.get(nm, 1))
+            gp = d.get('properties')
+            ok = d.get('name') == 'NAME' and isinstance(gp, dict) and \
+                sorted(gp) == sorted(want_p)
+            why = 'state keys %r' % (sorted(d),)
+            if ok:
+                for nm in want_p:
+                    rec = gp[nm]
+                    if not isinstance(rec, dict) or sorted(rec) != sorted(
+                            want_p[nm]) or any(
+                            not S.same(rec[k_], want_p[nm][k_])
+                            for k_ in want_p[nm]):
+                        ok = False
+                        why = 'record of %s: %r' % (nm, rec)
+            gc = d.get('constants')
+            if ok:
+                ok = isinstance(gc, dict) and gc == {
+                    nm: dict(name=nm, data=consts[nm]) for nm in consts}
+                why = 'constants %r' % (gc,)
+        obs.append(Obligation('reduce.state_is_complete', o.pc,
+                              z3.BoolVal(bool(ok)), W, extra=dict(why=why)))
+    # __setstate__
+    fn2 = m.methods('ParticleArray')['__setstate__']
+    recs = {nm: dict(name=nm, type='ctype_' + nm, data=('npy', nm),
+                     default=dfl[nm], stride={'A': 2}.get(nm, 1))
+            for nm in ('x', 'A', 'tag')}
+    crecs = {nm: dict(name=nm, data=consts[nm]) for nm in consts}
+    d_in = dict(name='NAME', properties=recs, constants=crecs)
+    obj2 = pa_self({'old': carr_obj('old')}, {}, z3.Int('n'), dict(
+        default_values={'old': 1}, constants={'oldc': 1}, name='OTHER',
+        property_arrays=['old'], num_real_particles=z3.Int('nr0')))
+    nloc = z3.Int('n_local')
+
+    def addp(e, s_, a, k_, nn):
+        s_.trace.append(('add_property', dict(k_), list(a[1:])))
+
+    def addc(e, s_, a, k_, nn):
+        s_.trace.append(('add_constant', dict(k_), list(a[1:])))
+    ex = executor(repo, m, '__setstate__', contracts={
+        'ParticleArray.add_property': CalleeContract(addp),
+        'ParticleArray.add_constant': CalleeContract(addc)})
+
+    class _TagData(object):
+        def vc_compare(self, op, other, reflected):
+            return ('tag==', other) if op == '==' else None
+    recs['tag']['data'] = _TagData()
+    ex.spec_env['numpy'] = SymObject(None, dict(
+        sum=Native(lambda e, s_, a, k_, nn: nloc if (
+            isinstance(a[0], tuple) and a[0][0] == 'tag==' and
+            S.same(a[0][1], e.eval(ast.parse('Local', mode='eval').body,
+                                   s_))) else z3.Int('n_other'))), 'numpy')
+    try:
+        outs = ex.exec_function(fn2, dict(self=obj2, d=d_in), State(pc=[]))
+    except VCError as e:
+        ctx.outside('pickle.setstate', str(e))
+        return
+    ctx.function(m, fn2, 'ParticleArray.__setstate__', ex.dropped)
+    if len(outs) != 1:
+        obs.append(Obligation('setstate.one_path', [], z3.BoolVal(False), W))
+    for o in outs:
+        tr = o.state.trace
+        me = o.state.env['self']
+        ap = [t for t in tr if t[0] == 'add_property']
+        ac = [t for t in tr if t[0] == 'add_constant']
+        first = [i for i, t in enumerate(tr) if t[0] in ('add_property',
+                                                         'add_constant')]
+        ok = (sorted(str(t[1].get('name')) for t in ap) == sorted(recs) and
+              all(not t[2] and sorted(t[1]) == sorted(recs[t[1]['name']])
+                  and all(t[1][k_] is recs[t[1]['name']][k_] or
+                          S.same(t[1][k_], recs[t[1]['name']][k_])
+                          for k_ in t[1]) for t in ap) and
+              sorted(str(t[1].get('name')) for t in ac) == sorted(crecs) and
+              all(not t[2] and t[1] == crecs[t[1]['name']] for t in ac))
+        why = 'calls %r' % ([(t[0], t[1], t[2]) for t in tr],)
+        obs.append(Obligation('setstate.every_record_is_restored', o.pc,
+                              z3.BoolVal(bool(ok)), W, extra=dict(why=why)))
+        # the old records were dropped before anything was added: the
+        # callee models do not touch them, so they must be empty now
+        clean = me.attrs['properties'] == {} and \
+            me.attrs['constants'] == {} and \
+            me.attrs['default_values'] == {} and \
+            me.attrs['property_arrays'] == [] and me.attrs['name'] == 'NAME'
+        obs.append(Obligation('setstate.starts_from_empty_records', o.pc,
+                              z3.BoolVal(bool(clean)), W))
+        obs.append(Obligation('setstate.num_real_is_count_of_local', o.pc,
+                              S.to_z3(S.cmp('==', me.attrs[
+                                  'num_real_particles'], nloc)), W))
+    for o_ in obs:
+        o_.extra = dict(o_.extra or {}, backends=['z3'])
+    ctx.prove('pickle.state_carries_every_record', obs, use_nf=False,
+              replay=replay_walkers)
 
 
 # ------------------------------------------------------------- add_property
@@ -1255,6 +1412,33 @@ if bad is None:
     a.append_parray(b)
     if a.get_number_of_particles() != 4 or 'q9' not in a.properties:
         bad = dict(op='append_parray of an array holding only ghost particles', n=int(a.get_number_of_particles()), has_q9='q9' in a.properties)
+if bad is None:
+    for upd in (False, True):
+        a = get_particle_array(name='a', x=[0., 1.]); a.add_constant('cm9', [1., 2., 3.]); a.add_constant('own9', 5.0)
+        b = get_particle_array(name='b', x=[7.]); b.add_constant('cm9', [9., 9., 9.]); b.add_constant('new9', 4.0)
+        a.append_parray(b, update_constants=upd)
+        got = dict((k, np.asarray(v).tolist()) for k, v in a.constants.items())
+        want = dict(cm9=[1., 2., 3.], own9=[5.0])
+        if upd: want['new9'] = [4.0]
+        if got != want:
+            bad = dict(op='append_parray(update_constants=%s): constants of the receiver' % upd, constants=got, expected=want); break
+if bad is None:
+    import pickle
+    a = get_particle_array(name='a', x=[0., 1., 2.], y=[5., 6., 7.])
+    a.add_property('w9', default=-1.0); a.add_property('A9', stride=2, default=7.5); a.add_property('i9', type='int', default=3)
+    a.add_constant('cm9', [1., 2., 3.])
+    a.tag[:] = [0, 2, 0]; a.align_particles()
+    c = pickle.loads(pickle.dumps(a))
+    for pa_ in (a, c):
+        pa_.add_particles(x=[9., 10.])
+    for nm in sorted(a.properties):
+        ga = a.get(nm, only_real_particles=False).tolist(); gc = c.get(nm, only_real_particles=False).tolist()
+        if ga != gc or a.default_values[nm] != c.default_values[nm] or a.stride.get(nm, 1) != c.stride.get(nm, 1):
+            bad = dict(op='pickle round trip, then add_particles(x=...) on original and copy', property=nm, original=ga, unpickled=gc,
+                       default_original=float(a.default_values[nm]), default_unpickled=float(c.default_values[nm])); break
+    if bad is None and (sorted(a.properties) != sorted(c.properties) or a.num_real_particles != c.num_real_particles
+                        or np.asarray(c.constants['cm9']).tolist() != [1., 2., 3.] or c.name != 'a'):
+        bad = dict(op='pickle round trip', props=sorted(c.properties), num_real=int(c.num_real_particles))
 print(json.dumps(dict(bad=bad)))
 '''
 
